@@ -76,6 +76,8 @@ Definition mismatches (l : list case) : list nat := mism_idx agree l.
    5 crash (nil bucket)
    6 concurrent savers: a load returned a value nobody wrote to that key of that
      service, or an error, or nothing after a completed write
+   8 a Save reported success but a later load of that key (before the next successful
+     save of it) by the same service does not return exactly that value (any key)
    7 a value handed to the service (loaded bytes, decoded []byte field, additional
      bucket name) changed afterwards, or reading it faults *)
 
@@ -83,7 +85,7 @@ Definition check (c : case) : list nat :=
   nodup Nat.eq_dec
     match c with
     | CHist names dec hist changed =>
-        (if names_ok names then pwalk dec names (pinit names) hist else []) ++
+        (if names_ok names then pwalk dec names (pinit names) hist ++ swalk [] hist else []) ++
         (* clause 7 holds for any names: a value handed to a service is the service's *)
         clause 7 (match changed with [] => true | _ => false end)
     | CConc names writes during after =>
